@@ -191,7 +191,12 @@ func scRoaming(r *Run) {
 					return
 				default:
 				}
-				write(wr, fmt.Sprintf("%s-%d", name, i))
+				if r.Intn(name, 6) == 0 {
+					write(wr, "") // an empty message (a keep-alive): as genuine and as fresh as any other packet
+					r.CountFault("empty-message", 1)
+				} else {
+					write(wr, fmt.Sprintf("%s-%d", name, i))
+				}
 				time.Sleep(time.Duration(10+r.Intn(name, 60)) * time.Millisecond)
 			}
 		})
